@@ -518,9 +518,9 @@ type inliner struct {
 	log     []string
 	touched map[*ast.File]bool
 	stack   []*inlCallee
-	keep    map[*ast.CallExpr]bool // calls that stay calls
+	keep    map[*ast.CallExpr]bool   // calls that stay calls
 	decls   map[types.Object]*declAt // function declarations of the root packages
-	pure    map[types.Object]int8  // 1 pure, 2 impure, 3 in progress
+	pure    map[types.Object]int8    // 1 pure, 2 impure, 3 in progress
 }
 
 type declAt struct {
